@@ -19,7 +19,7 @@ import NeumannModel.Blob.Conc
     sched <t> <thread;thread;..> <i,i,..>    → concurrent step machines under a schedule
     calls <t> <thread;thread;..> <i,i,..>    → the same at call level (one entry = one TensorStore call):
                                                `ok <done>/<n> <intact|broken> <call,call,..>`; the store is updated
-        threads: w:<id>:<chunk,chunk,..> | wd:<id>:<datahex> | d:<id> | g:<minCreated>[:<ordhex,..>] | f[:<ordIds>:<ordhex,..>]
+        threads: w:<id>:<chunk,chunk,..> | wd:<id>:<datahex> | d:<id> | t:<id> (metadata update) | g:<minCreated>[:<ordhex,..>] | f[:<ordIds>:<ordhex,..>]
     exists a<n> | stats | vchunk <keyhex> | cexist a<n> | orphans | touch a<n>
     gcsel <minCreated> <keyhex,..>           → gc_cycle that looked only at these keys (batch_size < chunk count)
     ropen <r> a<n> | rnext <r> | rread <r> <n> | rall <r> | rverify <r> | rdrop <r>   (streaming reader)
@@ -70,6 +70,7 @@ def parseThread (c t : Nat) (s : String) : Option (Th Key) :=
   | ["wd", id, d] => match id.toNat?, unhex d with
       | some i, some d => some (Th.writer i t (chunks c d)) | _, _ => none
   | ["d", id] => id.toNat?.map Th.deleter
+  | ["t", id] => id.toNat?.map Th.toucher
   | ["g", mc] => mc.toNat?.map Th.gc
   | ["g", mc, ord] => match mc.toNat?, parsePieces ord with
       | some mc, some ord => some (.gScan mc ord) | _, _ => none
